@@ -201,7 +201,7 @@ def shards(tier, seed):
     out = []
     sks = EXTRA + gen.QUICK
     for i, sk in enumerate(INTERLEAVE):
-        out.append(dict(name=f"interleave{i}", fn="h_interleave", kwargs=dict(sk=sk), budget=110 if tier == "quick" else 1200, per_path=60))
+        out.append(dict(name=f"interleave{i}", fn="h_interleave", kwargs=dict(sk=sk), budget=240 if tier == "quick" else 1200, per_path=60))
     if tier == "quick":
         sks = EXTRA + [dict(sk, sym=syms[0]) for sk, syms in gen._BASE]
         for i, sk in enumerate(sks):
